@@ -20,7 +20,7 @@ func init() {
 	register(&Check{
 		ID:    "C18",
 		Level: "model_checking",
-		Rule: "the full cross product of the CLI's documented configuration space is executed on the binary built from /repo's tree: {-com,-src} x program {find with matches, find without, replace, compile error} x -files {one file, glob of several, nothing matching, overlapping stars, a wildcard directory segment that also matches plain files, a literal directory segment that is a symbolic link} x stdout {none,-json,-formatted-json,both} x -json-file {absent,present} x -formatted-json-file {absent,present} x -replace-mode {absent,NEW,NOTHING,OVERWRITE,BOGUS,CONFIRM (in the library's enumeration, not offered by the CLI)} x -no-output {no,yes}, plus the invocations that name a JSON output file once more with stale, longer output files already present (10080 invocations in all), each in a fresh scratch directory whose files hold quotes, backslashes, per-cent signs, ESC, 0x01, 0x7f and a non-UTF-8 byte where the program captures them; " +
+		Rule: "the full cross product of the CLI's documented configuration space is executed on the binary built from /repo's tree: {-com,-src} x program {find with matches, find without, replace, compile error, replace with an empty text, two commands} x -files {one file, glob of several, nothing matching, overlapping stars, a wildcard directory segment that also matches plain files, a literal directory segment that is a symbolic link} x stdout {none,-json,-formatted-json,both} x -json-file {absent,present} x -formatted-json-file {absent,present} x -replace-mode {absent,NEW,NOTHING,OVERWRITE,BOGUS,CONFIRM (in the library's enumeration, not offered by the CLI)} x -no-output {no,yes}, plus the invocations that name a JSON output file once more with stale, longer output files already present (10080 invocations in all), each in a fresh scratch directory whose files hold quotes, backslashes, per-cent signs, ESC, 0x01, 0x7f and a non-UTF-8 byte where the program captures them; " +
 			"oracle: exit status; stdout under -json/-formatted-json is exactly one JSON document equal field by field to the library's result computed in-process on a twin directory; JSON files likewise; directory post-state equals the twin's (mode honoured, NEW default); invalid combinations / unknown mode / compile error: non-zero exit, a message, directory unchanged; states = distinct (configuration class, exit status, directory effect) outcomes, transitions = invocations",
 		Assume: []string{"with -no-output, and with zero matches, what the JSON files contain is not fixed by the documentation: only exit status and directory effects of the mode are checked there"},
 		Budget: map[string]int{"quick": 200, "thorough": 900},
@@ -66,7 +66,8 @@ type cliCfg struct {
 	stale    bool // the JSON output files exist already, holding a longer document of an earlier run
 }
 
-var cliProgs = []string{"find all 'a' (maybe not ' ') = x", "find all 'zzz'", "replace all 'a' with 'XY'", "find all (", "replace all 'b' with ''"}
+// the last program has two commands: the library runs each command over all files in turn
+var cliProgs = []string{"find all 'a' (maybe not ' ') = x", "find all 'zzz'", "replace all 'a' with 'XY'", "find all (", "replace all 'b' with ''", "find all 'a'\nfind all 'b' maybe 'a'"}
 // the last pattern has a wildcard directory segment that also matches plain files (b.txt, aba.txt) beside the directory sub
 // the one before: a literal directory segment that is a symbolic link to the directory sub
 var cliGlobs = []string{"a.txt", "*.txt", "zzz*", "a*a.txt", "*b*/a.txt", "lnk/a.txt"}
@@ -129,6 +130,9 @@ func runC18(c *Ctx) {
 			for fs := 0; fs < len(cliGlobs); fs++ {
 				if fs >= 3 && prog != 0 && prog != 4 {
 					continue // the overlapping-star glob is crossed with two programs only
+				}
+				if prog == 5 && fs > 1 {
+					continue // the two-command program: one file and the glob of several
 				}
 				if prog == 4 && fs != 0 && fs < 3 {
 					continue
